@@ -114,6 +114,23 @@ BigBodyCases ==
 UnsupportedCases ==
   [q \in 1..8 |-> Mk("unsupported", RecFn, NoArgs,
      <<Lit(EncDtlsRecord(22, 65277, 0, <<0, 0, 0>>, EncDtlsHs(<<0, 4, 12, 13, 15, 20, 22, 200>>[q], 2, 0, 0, 2, <<1, 2>>)))>>, <<>>, 0, 0)]
+(* ... at every epoch (a record that does not decode is an error at epoch 1 as at epoch 0: nothing is "probably encrypted") *)
+UnsupportedEpochCases ==
+  Concat([q \in 1..4 |-> [ep \in 1..4 |-> Mk("unsupported", RecFn, NoArgs,
+     <<Lit(EncDtlsRecord(22, 65277, <<1, 2, 258, 65535>>[ep], <<0, 0, q>>, EncDtlsHs(<<20, 4, 15, 200>>[q], 2, 0, 0, 2, <<1, 2>>)))>>, <<>>, 0, 0)]])
+  \o [ep \in 1..3 |-> Mk("dgram", "parse_dtls_plaintext_records", NoArgs,
+        <<Lit(EncDtlsRecord(20, 65277, 0, <<0, 0, 1>>, <<1>>) \o EncDtlsRecord(22, 65277, <<1, 2, 65535>>[ep], <<0, 0, 0>>, EncDtlsHs(20, 12, 3, 0, 12, Fill(ep, 12)))
+              \o EncDtlsRecord(21, 65277, 1, <<0, 0, 1>>, <<1, 0>>))>>, <<1>>, 14, 0)]
+(* an unfragmented message whose fragment_length is LARGER than its length: the body parser gets the fragment_length bytes it was sent *)
+OverlongBodies ==
+  << <<3, <<254, 253, 4, 9, 8, 7, 6>>, 3>>, <<3, <<254, 255, 0>>, 1>>,
+     <<11, <<0, 0, 5, 0, 0, 2, 48, 1>>, 3>>, <<14, <<1, 2, 3, 4>>, 2>>, <<16, <<1, 2, 3, 4, 5>>, 0>>,
+     <<2, <<254, 253>> \o R32 \o <<0, 192, 47, 0, 0, 4, 0, 23, 0, 0>>, 38>>,
+     <<1, <<254, 253>> \o R32 \o <<0, 0, 0, 2, 0, 47, 1, 0, 0, 4, 0, 23, 0, 0>>, 41>> >>
+OverlongCases ==
+  Concat([j \in 1..Len(OverlongBodies) |->
+    LET o == OverlongBodies[j]  msg == EncDtlsHs(o[1], o[3], j, 0, Len(o[2]), o[2])  rec == EncDtlsRecord(22, 65277, 0, <<0, 0, j>>, msg) IN
+    << Mk("overlong", HsFn, NoArgs, <<Lit(msg \o <<22>>)>>, <<j>>, Len(msg), Len(msg) + 1), Mk("overlong", RecFn, NoArgs, <<Lit(rec)>>, <<j>>, Len(rec), Len(rec)) >>])
 (* several records in one datagram *)
 Dgram ==
   LET r1 == EncDtlsRecord(22, 65277, 0, <<0, 0, 1>>, EncDtlsHs(14, 0, 1, 0, 0, <<>>))
@@ -132,7 +149,7 @@ WithHdrCases ==
     Mk("withhdr", "parse_dtls_record_with_header", [NoArgs EXCEPT !.ct = ct, !.ver = 65277, !.len = Len(Pay(ct)[1])],
        <<Lit(Pay(ct)[1])>>, <<>>, 0, 0)]
 
-ASSUME TLCSet(1, FrameCases \o HeaderCases \o CapCases \o FragCases \o BodyCases \o BodyLieCases \o BigBodyCases \o UnsupportedCases \o Dgram \o WithHdrCases)
+ASSUME TLCSet(1, FrameCases \o HeaderCases \o CapCases \o FragCases \o BodyCases \o BodyLieCases \o BigBodyCases \o UnsupportedCases \o UnsupportedEpochCases \o OverlongCases \o Dgram \o WithHdrCases)
 Cases == TLCGet(1)
 N == Len(Cases)
 
